@@ -30,6 +30,7 @@ func genResumeBase(r *verifsim.SplitMix, prop string) txSpec {
 		sp.Conns = 2
 	}
 	sp.ResumeS, sp.ResumeR = true, true
+	sp.Tail = []uint32{0, 1, 1, 2}[r.Intn(4)] // the CLI uses 1
 	sp.Hash = []string{"crc32c", "crc32c", "xxhash64", "none"}[r.Intn(4)]
 	sp.NoRoot = r.Chance(2, 3)
 	sp.Scan = []string{"root", "paths"}[r.Intn(2)]
@@ -127,6 +128,13 @@ func (h resumeHarness) Gen(r *verifsim.SplitMix, tier string, idx int) any {
 		for i := 0; i < nd; i++ {
 			sp.Damage = append(sp.Damage, txDamage{Kind: damageKinds[r.Intn(len(damageKinds))], File: r.Intn(8), Arg: r.Intn(1 << 20)})
 		}
+	}
+	if h.prop == "C05" && len(sp.Chain) >= 1 && r.Chance(1, 5) {
+		// the user deletes or shortens the partial output between two runs; the second run
+		// is killed at a file-system point: what its crash image claims must still be true
+		sp.Chain = append(sp.Chain[:1], txLink{Seed: r.Next(), Crash: &verifsim.CrashPlan{Node: "R", Kind: []string{"fs", "any"}[r.Intn(2)], N: -1 - r.Intn(1000)}})
+		sp.DamageAfter = 1
+		sp.Damage = []txDamage{{Kind: []string{"data_deleted", "data_shortened"}[r.Intn(2)], File: r.Intn(8)}}
 	}
 	if h.prop == "C06" && len(sp.Chain) >= 1 && r.Chance(1, 6) {
 		// the damage happens between two interrupted runs: the second one (killed at a
@@ -228,6 +236,10 @@ func findSidecars(out string, m manifest.Manifest, chunk uint32) []sidecarFound 
 }
 
 // checkImage is the C05 oracle on a crash image.
+// externalDamage is set while the history being judged contains a deletion or shortening
+// of the output by the user between two runs.
+var externalDamage bool
+
 func checkImage(sp *txSpec, out string, m manifest.Manifest, lastGood map[string][]byte) []string {
 	var bad []string
 	base := sp.outBase(out, m)
@@ -242,6 +254,13 @@ func checkImage(sp *txSpec, out string, m manifest.Manifest, lastGood map[string
 		rel := sf.item.RelPath
 		srcBytes := content[relToSpecPath(sp, rel)]
 		data, err := os.ReadFile(filepath.Join(base, filepath.FromSlash(rel)))
+		if externalDamage && (err != nil || int64(len(data)) != sf.item.Size) {
+			// the user removed or shortened the output between the runs and the receiver has
+			// not re-created it yet: the next run sees a missing / wrong-size file and drops
+			// the metadata (that is C06's clause, checked there). What C05 must never find is
+			// a file of the right size next to marks it does not honour.
+			continue
+		}
 		cs := int64(sp.Chunk)
 		for i := 0; i < int(sf.sc.TotalChunks); i++ {
 			if !sf.sc.bitmap.Get(i) {
@@ -341,6 +360,8 @@ func resolveLink(sp *txSpec, l txLink, src, out string, enumN int) (txLink, int,
 
 func runChain(sp *txSpec, src, out string, enumN int) (cr chainResult) {
 	lastGood := map[string][]byte{}
+	externalDamage = false
+	defer func() { externalDamage = false }()
 	for li, l0 := range sp.Chain {
 		n := 0
 		if li == 0 {
@@ -367,7 +388,7 @@ func runChain(sp *txSpec, src, out string, enumN int) (cr chainResult) {
 		for _, b := range installedBroken {
 			cr.c05 = append(cr.c05, fmt.Sprintf("%s (link %d)", b, li))
 		}
-		if sp.Prop == "C06" && sp.DamageAfter == li+1 && li+1 < len(sp.Chain) {
+		if (sp.Prop == "C06" || sp.Prop == "C05") && sp.DamageAfter == li+1 && li+1 < len(sp.Chain) {
 			// the stored state is damaged between two interrupted runs
 			tornChunks = nil
 			for _, d := range sp.Damage {
@@ -376,6 +397,7 @@ func runChain(sp *txSpec, src, out string, enumN int) (cr chainResult) {
 				}
 			}
 			cr.damagedEarly = true
+			externalDamage = true
 		}
 		if ep.outcome != verifsim.Finished {
 			cr.skipped = "interrupted run hung (C02/C03's business): " + hangSignature(ep)
